@@ -344,6 +344,10 @@ def onEv1 (s : Sim) (line : Nat) (ws : List String) : Sim :=
       match c.mid with
       | some mid =>
         let s := s.close
+        let stageName := match s.st.stage mid with
+          | .sending => "sending" | .queued => "queued" | .spawned => "waiting_for_permit" | .executing => "executing"
+          | .replying _ => "replying" | .done => "done"
+        let s := if s.accepting && !s.fuzzy && c.retT.isNone then s.bump ("abandon_at_" ++ stageName) else s
         if s.st.stage mid == .sending then s.env (.abandonEarly mid) else s.env (.abandon mid)
       | none => s
     | none => s
